@@ -377,6 +377,85 @@ def build(ctx):
                      And(0 <= jx, jx < R.n, ex_.t == x), witness=dict(wit, o2=o2, x=x), replay=rp('drange'))
     ctx.guarded('bdays_drange', bdays_drange)
 
+    # ------------------------------------------------------------------ registry: calendar(key, holidays, weekend, t0, t1)
+    def registry_section():
+        from pyvc.th_lists import Val, NONEV, V
+        from z3 import Array, ArraySort, DeclareSort, Const, Store, Select
+        fdef = m.func('calendar')
+        CalS = DeclareSort('Cal')
+        HOLS = Function('holidays_of', CalS, Val)
+        WKND = Function('weekend_of', CalS, Val)
+        TRUTHY = Function('truthy', Val, BoolSort())
+        MK = Function('Calendar', Val, Val, Val, Val, Val, CalS)
+
+        class Registry:
+            def pre_call(self, ex, st, e):
+                if isinstance(e.func, ast.Name) and e.func.id == 'isinstance' and len(e.args) == 2 and ast.unparse(e.args[1]) == 'Calendar':
+                    ex.use('path precondition:the key passed to calendar() is a plain key, not a Calendar object')
+                    return B(False)
+                return NotImplemented
+
+            def compare(self, ex, st, e, op, a, b):
+                if op in ('In', 'NotIn') and b.kind == 'registry' and a.kind == 'val':
+                    r = b.f['dom'][a.t]
+                    return r if op == 'In' else Not(r)
+                return NotImplemented
+
+            def subscript(self, ex, st, e, recv, idx):
+                if recv.kind == 'registry' and idx.kind == 'val':
+                    ex.raise_if(st, Not(recv.f['dom'][idx.t]), 'KeyError')
+                    return SV('calendar', recv.f['val'][idx.t])
+                return NotImplemented
+
+            def store_subscript(self, ex, st, tg, recv, idx, v):
+                if recv.kind == 'registry' and idx.kind == 'val' and v.kind == 'calendar':
+                    return SV('registry', None, dom=Store(recv.f['dom'], idx.t, BoolVal(True)), val=Store(recv.f['val'], idx.t, v.t))
+                return NotImplemented
+
+            def call(self, ex, st, e, fname, args, kwargs):
+                if fname == 'Calendar' and len(args) == 1 and set(kwargs) == {'holidays', 'weekend', 't0', 't1'} and all(x.kind == 'val' for x in args + list(kwargs.values())):
+                    ex.use('assumed contract:Calendar(key, holidays=h, weekend=w, t0=.., t1=..) is a calendar holding exactly the holidays h and weekend w (bounded-checked)')
+                    c = MK(args[0].t, kwargs['holidays'].t, kwargs['weekend'].t, kwargs['t0'].t, kwargs['t1'].t)
+                    ex.fact(And(HOLS(c) == kwargs['holidays'].t, WKND(c) == kwargs['weekend'].t))
+                    return SV('calendar', c)
+                return NotImplemented
+
+            def truth(self, ex, st, v):
+                if v.kind == 'val':      # truthiness of an argument (an empty holiday list is falsy but not None)
+                    ex.fact(Not(TRUTHY(NONEV)))
+                    return TRUTHY(v.t)
+                return NotImplemented
+
+        key, hol_, we_, t0_, t1_ = [Const(n_, Val) for n_ in ('RKEY', 'RHOL', 'RWE', 'RT0', 'RT1')]
+        reg = SV('registry', None, dom=Array('reg_dom', Val, BoolSort()), val=Array('reg_val', Val, CalS))
+        from pyvc.th_lists import Lists
+        ex = Exec(m, [Registry(), TypePreds(), Lists()], inline={'calendar': (m, fdef)}, name='calendar', globals_={'calendars': reg})
+        st = State()
+        outs = ex.run_function(st, 'calendar', [V(key), V(hol_), V(we_), V(t0_), V(t1_)], {})
+        ctx.absorb(ex)
+        ctx.record_function(m, 'calendar', fdef, ex.stmts_executed, excluded=['key given as a Calendar object (copy / re-key branch): bounded only'])
+        given = Or(hol_ != NONEV, we_ != NONEV, t0_ != NONEV, t1_ != NONEV)
+        rw = dict(holidays_given=hol_ != NONEV, weekend_given=we_ != NONEV, holidays_truthy=TRUTHY(hol_), weekend_truthy=TRUTHY(we_), registered=reg.f['dom'][key])
+        nret = 0
+        for out in outs:
+            hy = ex.facts + out.st.pc
+            if out.kind != 'return':
+                ctx.post('calendar.never_raises', hy, BoolVal(False), kind='safety', witness=rw, replay=rp('registry'))
+                continue
+            nret += 1
+            r = out.val
+            reg2 = out.st.env.get('calendars', reg)
+            ctx.post('calendar.returns_the_registered_calendar', hy, And(reg2.f['dom'][key], reg2.f['val'][key] == r.t), witness=rw, replay=rp('registry'))
+            ctx.post('calendar.reflects_the_arguments_it_was_last_registered_with', hy + [given],
+                     And(HOLS(r.t) == hol_, WKND(r.t) == we_), witness=rw, replay=rp('registry'))
+            ctx.post('calendar.plain_fetch_returns_the_stored_calendar', hy + [Not(given), reg.f['dom'][key]],
+                     And(r.t == reg.f['val'][key], reg2.f['val'][key] == reg.f['val'][key]), witness=rw, replay=rp('registry'))
+            k2 = Const('k!reg', Val)
+            ctx.post('calendar.other_keys_untouched', hy, ForAll([k2], Implies(k2 != key, And(reg2.f['dom'][k2] == reg.f['dom'][k2], reg2.f['val'][k2] == reg.f['val'][k2]))))
+        if nret == 0:
+            raise OutOfSubset('calendar() has no returning path')
+    ctx.guarded('registry', registry_section)
+
     # ------------------------------------------------------------------ vacuity
     ctx.cover('range_precondition_satisfiable', base_pre + [H(o + 1), WE(5), WE(6), LO < o, o < HI])
     ctx.trust('H (holidays) and WE (weekend) are uninterpreted: every holiday set and weekend definition is covered; a 7-day weekend is '
